@@ -14,6 +14,9 @@
 (*                  attributes").                                           *)
 (*  Mode "docref" : a documentation reference :tag:`value` at a site        *)
 (*                  (lang_ref "References").                                *)
+(*  Mode "annot"  : one or two annotations applied to a struct field, a     *)
+(*                  union member or an alias definition (lang_ref           *)
+(*                  "Annotations").                                         *)
 (***************************************************************************)
 EXTENDS StoneRuntime, Json
 
@@ -178,6 +181,35 @@ RefFits(site, tag, p) ==
       [] tag = "link" -> IF p.kind \in {"link_ok", "link_long", "two_words"} THEN "acc" ELSE "rej"   \* "<title...> <uri>"
       [] tag = "val"  -> IF p.kind \in {"lit_null", "lit_true", "lit_int", "lit_float"} THEN "acc" ELSE "unspec"
 
+\* ------------------------------------------------------------- annotations applied to members (lang_ref "Annotations")
+\* environment (namespace nsa imports nsb; nsc exists, not imported):
+\*   nsa: annotation Om = Omitted("a"), Om2 = Omitted("b"), Dep = Deprecated(), Prev = Preview(), Blot = RedactedBlot(),
+\*        Hash = RedactedHash(), annotation_type Note { importance String = "low" }, Cust = Note(), CustKw = Note(importance="x"),
+\*        struct Sx, alias ARed = String @Blot, alias APlain = String;   nsb: annotation Fo = Omitted("f");  nsc: annotation Nc = Deprecated()
+ASites == {"field", "tag", "alias"}
+ATypesOf == {"String", "Int32", "Float64", "Boolean", "Bytes", "ListString", "MapString", "StringN", "Sx", "ARed", "APlain"}
+Anns == {"Om", "Om2", "Dep", "Prev", "Blot", "Hash", "Cust", "CustKw", "Zz", "nsb.Fo", "nsc.Nc", "nsz.Nc", "Sx", "nsb.Zz"}
+IsRedactor(a) == a \in {"Blot", "Hash"}
+Resolves(a) == a \in {"Om", "Om2", "Dep", "Prev", "Blot", "Hash", "Cust", "CustKw", "nsb.Fo"}
+AnnFits(site, ty, a1, a2) ==
+    LET as == IF a2 = "none" THEN {a1} ELSE {a1, a2} IN
+    IF \E a \in as : ~Resolves(a) THEN "rej"                     \* the annotation must exist (in an imported namespace) and be an annotation
+    ELSE IF {"Om", "Om2"} \subseteq as \/ {"Om", "nsb.Fo"} \subseteq as \/ {"Om2", "nsb.Fo"} \subseteq as
+         THEN "rej"                                               \* "fields can be tagged with at most one caller type"
+    ELSE IF \E a \in as : IsRedactor(a) THEN
+         \* "only string and numeric typed fields are eligible for redaction"; user types are neither
+         (IF ty = "Sx" THEN "rej"
+          \* (a field whose type is written as an alias: the documents do not say whether it may carry its own redactor)
+          ELSE IF ty \in {"String", "Int32", "Float64", "StringN"} /\ Cardinality({a \in as : IsRedactor(a)}) = 1
+                  /\ (site # "alias" \/ ty \in {"String", "Int32", "Float64"}) THEN
+               (IF as \ {"Blot", "Hash"} \subseteq {"Cust", "CustKw"} \/ site # "alias" THEN "acc" ELSE "unspec")
+          ELSE "unspec")
+    ELSE IF site = "alias" THEN
+         \* "Aliases ... can be marked at their definition with a redactor tag"; custom annotations work like built-in ones
+         (IF as \subseteq {"Cust", "CustKw"} THEN "acc" ELSE "unspec")
+    ELSE IF {"Dep", "Prev"} \subseteq as \/ a1 = a2 THEN "unspec"
+    ELSE "acc"
+
 \* ------------------------------------------------------------- the machine
 Init == pick = [k |-> "none"]
 PickEx == /\ Mode = "exlit" /\ pick.k = "none"
@@ -186,7 +218,11 @@ PickAttr == /\ Mode = "attr" /\ pick.k = "none"
             /\ \E i \in DOMAIN ADecls, l \in AVals : pick' = [k |-> "attr", di |-> i, l |-> l]
 PickRef == /\ Mode = "docref" /\ pick.k = "none"
            /\ \E s \in Sites, tg \in Tags, p \in Payloads : pick' = [k |-> "docref", site |-> s, tag |-> tg, p |-> p]
-Next == PickEx \/ PickAttr \/ PickRef
+PickAnn == /\ Mode = "annot" /\ pick.k = "none"
+           /\ \E st \in ASites, ty \in ATypesOf, a1 \in Anns, a2 \in Anns \cup {"none"} :
+                  /\ (st = "alias" => ty \in {"String", "Int32", "ListString", "Sx", "APlain", "ARed"})
+                  /\ pick' = [k |-> "annot", site |-> st, ty |-> ty, a1 |-> a1, a2 |-> a2]
+Next == PickEx \/ PickAttr \/ PickRef \/ PickAnn
 Spec == Init /\ [][Next]_vars
 
 \* ------------------------------------------------------------- properties
@@ -195,6 +231,7 @@ Verdicts == {"acc", "rej", "unspec"}
 Total == CASE pick.k = "exlit"  -> ExFits(XSchema(ETypes[pick.ti]), XExamples(pick.x), ETypes[pick.ti], pick.x) \in Verdicts
            [] pick.k = "attr"   -> AttrFits(ASchema, ADecls[pick.di], pick.l) \in Verdicts
            [] pick.k = "docref" -> RefFits(pick.site, pick.tag, pick.p) \in Verdicts
+           [] pick.k = "annot"  -> AnnFits(pick.site, pick.ty, pick.a1, pick.a2) \in Verdicts
            [] OTHER -> TRUE
 \* a default the schema itself declares is a value the rule accepts when a route writes it (the schema is consistent)
 DeclaredDefaultsFit == \A i \in DOMAIN ADecls : ADecls[i].d.k # "absent" => AttrFits(ASchema, ADecls[i], ADecls[i].d) = "acc"
@@ -210,6 +247,8 @@ Hash(p) == CASE p.k = "exlit" -> p.ti [] p.k = "attr" -> p.di
              [] p.k = "docref" -> (CASE p.site = "struct" -> 0 [] p.site = "field" -> 1 [] p.site = "tag" -> 2 [] OTHER -> 3)
                                   + (CASE p.tag = "type" -> 0 [] p.tag = "field" -> 4 [] p.tag = "route" -> 8 [] p.tag = "link" -> 12
                                        [] p.tag = "val" -> 16 [] OTHER -> 20)
+             [] p.k = "annot" -> (CASE p.site = "field" -> 0 [] p.site = "tag" -> 1 [] OTHER -> 2)
+                                 + (IF p.a2 = "none" THEN 0 ELSE 3) + (IF IsRedactor(p.a1) THEN 6 ELSE 0)
              [] OTHER -> 0
 InShard == pick.k = "none" \/ Hash(pick) % NShards = Shard
 Vector ==
@@ -220,6 +259,9 @@ Vector ==
            [mode |-> "attr", schema |-> ASchema, decl |-> ADecls[pick.di], l |-> pick.l, verdict |-> AttrFits(ASchema, ADecls[pick.di], pick.l)]
       [] pick.k = "docref" ->
            [mode |-> "docref", site |-> pick.site, tag |-> pick.tag, p |-> pick.p, verdict |-> RefFits(pick.site, pick.tag, pick.p)]
+      [] pick.k = "annot" ->
+           [mode |-> "annot", site |-> pick.site, ty |-> pick.ty, a1 |-> pick.a1, a2 |-> pick.a2,
+            verdict |-> AnnFits(pick.site, pick.ty, pick.a1, pick.a2)]
       [] OTHER -> [mode |-> "none"]
 Emit == IF EmitVectors /\ pick.k # "none" THEN PrintT(<<"VEC", ToJson(Vector)>>) ELSE TRUE
 =============================================================================
